@@ -147,6 +147,12 @@ let rec rev_append l l' =
 let rev' l =
   rev_append l []
 
+(** val concat : 'a1 list list -> 'a1 list **)
+
+let rec concat = function
+| [] -> []
+| x :: l0 -> app x (concat l0)
+
 (** val map : ('a1 -> 'a2) -> 'a1 list -> 'a2 list **)
 
 let rec map f = function
@@ -200,7 +206,7 @@ let rec skipn n0 l =
 
 let rec seq start = function
 | O -> []
-| S len1 -> start :: (seq (S start) len1)
+| S len2 -> start :: (seq (S start) len2)
 
 (** val repeat : 'a1 -> nat -> 'a1 list **)
 
@@ -245,17 +251,17 @@ module Coq_Pos =
     match x with
     | XI p ->
       (match y with
-       | XI q0 -> XO (add_carry p q0)
-       | XO q0 -> XI (add p q0)
+       | XI q1 -> XO (add_carry p q1)
+       | XO q1 -> XI (add p q1)
        | XH -> XO (succ p))
     | XO p ->
       (match y with
-       | XI q0 -> XI (add p q0)
-       | XO q0 -> XO (add p q0)
+       | XI q1 -> XI (add p q1)
+       | XO q1 -> XO (add p q1)
        | XH -> XI p)
     | XH -> (match y with
-             | XI q0 -> XO (succ q0)
-             | XO q0 -> XI q0
+             | XI q1 -> XO (succ q1)
+             | XO q1 -> XI q1
              | XH -> XO XH)
 
   (** val add_carry : positive -> positive -> positive **)
@@ -264,18 +270,18 @@ module Coq_Pos =
     match x with
     | XI p ->
       (match y with
-       | XI q0 -> XI (add_carry p q0)
-       | XO q0 -> XO (add_carry p q0)
+       | XI q1 -> XI (add_carry p q1)
+       | XO q1 -> XO (add_carry p q1)
        | XH -> XI (succ p))
     | XO p ->
       (match y with
-       | XI q0 -> XO (add_carry p q0)
-       | XO q0 -> XI (add p q0)
+       | XI q1 -> XO (add_carry p q1)
+       | XO q1 -> XI (add p q1)
        | XH -> XO (succ p))
     | XH ->
       (match y with
-       | XI q0 -> XI (succ q0)
-       | XO q0 -> XO (succ q0)
+       | XI q1 -> XI (succ q1)
+       | XO q1 -> XO (succ q1)
        | XH -> XI XH)
 
   (** val pred_double : positive -> positive **)
@@ -323,13 +329,13 @@ module Coq_Pos =
     match x with
     | XI p ->
       (match y with
-       | XI q0 -> double_mask (sub_mask p q0)
-       | XO q0 -> succ_double_mask (sub_mask p q0)
+       | XI q1 -> double_mask (sub_mask p q1)
+       | XO q1 -> succ_double_mask (sub_mask p q1)
        | XH -> IsPos (XO p))
     | XO p ->
       (match y with
-       | XI q0 -> succ_double_mask (sub_mask_carry p q0)
-       | XO q0 -> double_mask (sub_mask p q0)
+       | XI q1 -> succ_double_mask (sub_mask_carry p q1)
+       | XO q1 -> double_mask (sub_mask p q1)
        | XH -> IsPos (pred_double p))
     | XH -> (match y with
              | XH -> IsNul
@@ -341,13 +347,13 @@ module Coq_Pos =
     match x with
     | XI p ->
       (match y with
-       | XI q0 -> succ_double_mask (sub_mask_carry p q0)
-       | XO q0 -> double_mask (sub_mask p q0)
+       | XI q1 -> succ_double_mask (sub_mask_carry p q1)
+       | XO q1 -> double_mask (sub_mask p q1)
        | XH -> IsPos (pred_double p))
     | XO p ->
       (match y with
-       | XI q0 -> double_mask (sub_mask_carry p q0)
-       | XO q0 -> succ_double_mask (sub_mask_carry p q0)
+       | XI q1 -> double_mask (sub_mask_carry p q1)
+       | XO q1 -> succ_double_mask (sub_mask_carry p q1)
        | XH -> double_pred_mask p)
     | XH -> IsNeg
 
@@ -372,13 +378,13 @@ module Coq_Pos =
     match x with
     | XI p ->
       (match y with
-       | XI q0 -> compare_cont r p q0
-       | XO q0 -> compare_cont Gt p q0
+       | XI q1 -> compare_cont r p q1
+       | XO q1 -> compare_cont Gt p q1
        | XH -> Gt)
     | XO p ->
       (match y with
-       | XI q0 -> compare_cont Lt p q0
-       | XO q0 -> compare_cont r p q0
+       | XI q1 -> compare_cont Lt p q1
+       | XO q1 -> compare_cont r p q1
        | XH -> Gt)
     | XH -> (match y with
              | XH -> r
@@ -391,15 +397,15 @@ module Coq_Pos =
 
   (** val eqb : positive -> positive -> bool **)
 
-  let rec eqb p q0 =
+  let rec eqb p q1 =
     match p with
-    | XI p0 -> (match q0 with
-                | XI q1 -> eqb p0 q1
+    | XI p0 -> (match q1 with
+                | XI q2 -> eqb p0 q2
                 | _ -> false)
-    | XO p0 -> (match q0 with
-                | XO q1 -> eqb p0 q1
+    | XO p0 -> (match q1 with
+                | XO q2 -> eqb p0 q2
                 | _ -> false)
-    | XH -> (match q0 with
+    | XH -> (match q1 with
              | XH -> true
              | _ -> false)
 
@@ -417,55 +423,55 @@ module Coq_Pos =
 
   (** val coq_lor : positive -> positive -> positive **)
 
-  let rec coq_lor p q0 =
+  let rec coq_lor p q1 =
     match p with
     | XI p0 ->
-      (match q0 with
-       | XI q1 -> XI (coq_lor p0 q1)
-       | XO q1 -> XI (coq_lor p0 q1)
+      (match q1 with
+       | XI q2 -> XI (coq_lor p0 q2)
+       | XO q2 -> XI (coq_lor p0 q2)
        | XH -> p)
     | XO p0 ->
-      (match q0 with
-       | XI q1 -> XI (coq_lor p0 q1)
-       | XO q1 -> XO (coq_lor p0 q1)
+      (match q1 with
+       | XI q2 -> XI (coq_lor p0 q2)
+       | XO q2 -> XO (coq_lor p0 q2)
        | XH -> XI p0)
-    | XH -> (match q0 with
-             | XO q1 -> XI q1
-             | _ -> q0)
+    | XH -> (match q1 with
+             | XO q2 -> XI q2
+             | _ -> q1)
 
   (** val coq_land : positive -> positive -> n **)
 
-  let rec coq_land p q0 =
+  let rec coq_land p q1 =
     match p with
     | XI p0 ->
-      (match q0 with
-       | XI q1 -> coq_Nsucc_double (coq_land p0 q1)
-       | XO q1 -> coq_Ndouble (coq_land p0 q1)
+      (match q1 with
+       | XI q2 -> coq_Nsucc_double (coq_land p0 q2)
+       | XO q2 -> coq_Ndouble (coq_land p0 q2)
        | XH -> Npos XH)
     | XO p0 ->
-      (match q0 with
-       | XI q1 -> coq_Ndouble (coq_land p0 q1)
-       | XO q1 -> coq_Ndouble (coq_land p0 q1)
+      (match q1 with
+       | XI q2 -> coq_Ndouble (coq_land p0 q2)
+       | XO q2 -> coq_Ndouble (coq_land p0 q2)
        | XH -> N0)
-    | XH -> (match q0 with
+    | XH -> (match q1 with
              | XO _ -> N0
              | _ -> Npos XH)
 
   (** val ldiff : positive -> positive -> n **)
 
-  let rec ldiff p q0 =
+  let rec ldiff p q1 =
     match p with
     | XI p0 ->
-      (match q0 with
-       | XI q1 -> coq_Ndouble (ldiff p0 q1)
-       | XO q1 -> coq_Nsucc_double (ldiff p0 q1)
+      (match q1 with
+       | XI q2 -> coq_Ndouble (ldiff p0 q2)
+       | XO q2 -> coq_Nsucc_double (ldiff p0 q2)
        | XH -> Npos (XO p0))
     | XO p0 ->
-      (match q0 with
-       | XI q1 -> coq_Ndouble (ldiff p0 q1)
-       | XO q1 -> coq_Ndouble (ldiff p0 q1)
+      (match q1 with
+       | XI q2 -> coq_Ndouble (ldiff p0 q2)
+       | XO q2 -> coq_Ndouble (ldiff p0 q2)
        | XH -> Npos p)
-    | XH -> (match q0 with
+    | XH -> (match q1 with
              | XO _ -> Npos XH
              | _ -> N0)
 
@@ -491,10 +497,10 @@ module Coq_Pos =
 
   (** val iter_op : ('a1 -> 'a1 -> 'a1) -> positive -> 'a1 -> 'a1 **)
 
-  let rec iter_op op1 p a =
+  let rec iter_op op2 p a =
     match p with
-    | XI p0 -> op1 a (iter_op op1 p0 (op1 a a))
-    | XO p0 -> iter_op op1 p0 (op1 a a)
+    | XI p0 -> op2 a (iter_op op2 p0 (op2 a a))
+    | XO p0 -> iter_op op2 p0 (op2 a a)
     | XH -> a
 
   (** val to_nat : positive -> nat **)
@@ -530,7 +536,7 @@ module N =
     | N0 -> m
     | Npos p -> (match m with
                  | N0 -> n0
-                 | Npos q0 -> Npos (Coq_Pos.add p q0))
+                 | Npos q1 -> Npos (Coq_Pos.add p q1))
 
   (** val sub : n -> n -> n **)
 
@@ -552,7 +558,7 @@ module N =
     | N0 -> N0
     | Npos p -> (match m with
                  | N0 -> N0
-                 | Npos q0 -> Npos (Coq_Pos.mul p q0))
+                 | Npos q1 -> Npos (Coq_Pos.mul p q1))
 
   (** val compare : n -> n -> comparison **)
 
@@ -574,7 +580,7 @@ module N =
              | Npos _ -> false)
     | Npos p -> (match m with
                  | N0 -> false
-                 | Npos q0 -> Coq_Pos.eqb p q0)
+                 | Npos q1 -> Coq_Pos.eqb p q1)
 
   (** val leb : n -> n -> bool **)
 
@@ -611,13 +617,13 @@ module N =
   let rec pos_div_eucl a b =
     match a with
     | XI a' ->
-      let (q0, r) = pos_div_eucl a' b in
+      let (q1, r) = pos_div_eucl a' b in
       let r' = succ_double r in
-      if leb b r' then ((succ_double q0), (sub r' b)) else ((double q0), r')
+      if leb b r' then ((succ_double q1), (sub r' b)) else ((double q1), r')
     | XO a' ->
-      let (q0, r) = pos_div_eucl a' b in
+      let (q1, r) = pos_div_eucl a' b in
       let r' = double r in
-      if leb b r' then ((succ_double q0), (sub r' b)) else ((double q0), r')
+      if leb b r' then ((succ_double q1), (sub r' b)) else ((double q1), r')
     | XH ->
       (match b with
        | N0 -> (N0, (Npos XH))
@@ -647,7 +653,7 @@ module N =
     | Npos p ->
       (match m with
        | N0 -> n0
-       | Npos q0 -> Npos (Coq_Pos.coq_lor p q0))
+       | Npos q1 -> Npos (Coq_Pos.coq_lor p q1))
 
   (** val coq_land : n -> n -> n **)
 
@@ -656,7 +662,7 @@ module N =
     | N0 -> N0
     | Npos p -> (match m with
                  | N0 -> N0
-                 | Npos q0 -> Coq_Pos.coq_land p q0)
+                 | Npos q1 -> Coq_Pos.coq_land p q1)
 
   (** val ldiff : n -> n -> n **)
 
@@ -665,7 +671,7 @@ module N =
     | N0 -> N0
     | Npos p -> (match m with
                  | N0 -> n0
-                 | Npos q0 -> Coq_Pos.ldiff p q0)
+                 | Npos q1 -> Coq_Pos.ldiff p q1)
 
   (** val shiftl : n -> n -> n **)
 
@@ -729,18 +735,18 @@ module Z =
     match x with
     | XI p ->
       (match y with
-       | XI q0 -> double (pos_sub p q0)
-       | XO q0 -> succ_double (pos_sub p q0)
+       | XI q1 -> double (pos_sub p q1)
+       | XO q1 -> succ_double (pos_sub p q1)
        | XH -> Zpos (XO p))
     | XO p ->
       (match y with
-       | XI q0 -> pred_double (pos_sub p q0)
-       | XO q0 -> double (pos_sub p q0)
+       | XI q1 -> pred_double (pos_sub p q1)
+       | XO q1 -> double (pos_sub p q1)
        | XH -> Zpos (Coq_Pos.pred_double p))
     | XH ->
       (match y with
-       | XI q0 -> Zneg (XO q0)
-       | XO q0 -> Zneg (Coq_Pos.pred_double q0)
+       | XI q1 -> Zneg (XO q1)
+       | XO q1 -> Zneg (Coq_Pos.pred_double q1)
        | XH -> Z0)
 
   (** val add : z -> z -> z **)
@@ -837,10 +843,10 @@ module Z =
              | Z0 -> true
              | _ -> false)
     | Zpos p -> (match y with
-                 | Zpos q0 -> Coq_Pos.eqb p q0
+                 | Zpos q1 -> Coq_Pos.eqb p q1
                  | _ -> false)
     | Zneg p -> (match y with
-                 | Zneg q0 -> Coq_Pos.eqb p q0
+                 | Zneg q1 -> Coq_Pos.eqb p q1
                  | _ -> false)
 
   (** val to_nat : z -> nat **)
@@ -872,17 +878,17 @@ module Z =
   let rec pos_div_eucl a b =
     match a with
     | XI a' ->
-      let (q0, r) = pos_div_eucl a' b in
+      let (q1, r) = pos_div_eucl a' b in
       let r' = add (mul (Zpos (XO XH)) r) (Zpos XH) in
       if ltb r' b
-      then ((mul (Zpos (XO XH)) q0), r')
-      else ((add (mul (Zpos (XO XH)) q0) (Zpos XH)), (sub r' b))
+      then ((mul (Zpos (XO XH)) q1), r')
+      else ((add (mul (Zpos (XO XH)) q1) (Zpos XH)), (sub r' b))
     | XO a' ->
-      let (q0, r) = pos_div_eucl a' b in
+      let (q1, r) = pos_div_eucl a' b in
       let r' = mul (Zpos (XO XH)) r in
       if ltb r' b
-      then ((mul (Zpos (XO XH)) q0), r')
-      else ((add (mul (Zpos (XO XH)) q0) (Zpos XH)), (sub r' b))
+      then ((mul (Zpos (XO XH)) q1), r')
+      else ((add (mul (Zpos (XO XH)) q1) (Zpos XH)), (sub r' b))
     | XH -> if leb (Zpos (XO XH)) b then (Z0, (Zpos XH)) else ((Zpos XH), Z0)
 
   (** val div_eucl : z -> z -> z * z **)
@@ -895,19 +901,19 @@ module Z =
        | Z0 -> (Z0, a)
        | Zpos _ -> pos_div_eucl a' b
        | Zneg b' ->
-         let (q0, r) = pos_div_eucl a' (Zpos b') in
+         let (q1, r) = pos_div_eucl a' (Zpos b') in
          (match r with
-          | Z0 -> ((opp q0), Z0)
-          | _ -> ((opp (add q0 (Zpos XH))), (add b r))))
+          | Z0 -> ((opp q1), Z0)
+          | _ -> ((opp (add q1 (Zpos XH))), (add b r))))
     | Zneg a' ->
       (match b with
        | Z0 -> (Z0, a)
        | Zpos _ ->
-         let (q0, r) = pos_div_eucl a' b in
+         let (q1, r) = pos_div_eucl a' b in
          (match r with
-          | Z0 -> ((opp q0), Z0)
-          | _ -> ((opp (add q0 (Zpos XH))), (sub b r)))
-       | Zneg b' -> let (q0, r) = pos_div_eucl a' (Zpos b') in (q0, (opp r)))
+          | Z0 -> ((opp q1), Z0)
+          | _ -> ((opp (add q1 (Zpos XH))), (sub b r)))
+       | Zneg b' -> let (q1, r) = pos_div_eucl a' (Zpos b') in (q1, (opp r)))
 
   (** val modulo : z -> z -> z **)
 
@@ -1161,19 +1167,19 @@ let set_excuse r =
 
 (** val boundary_now : z -> z list -> oprec -> bool **)
 
-let boundary_now cap1 q0 r =
+let boundary_now cap1 q1 r =
   if r.o_push
-  then Z.leb cap1 (Z.of_nat (length q0))
-  else (match q0 with
+  then Z.leb cap1 (Z.of_nat (length q1))
+  else (match q1 with
         | [] -> true
         | _ :: _ -> false)
 
 (** val look : z -> z list -> tstate -> tstate **)
 
-let look cap1 q0 t =
+let look cap1 q1 t =
   match t.t_cur with
   | Some r ->
-    if boundary_now cap1 q0 r
+    if boundary_now cap1 q1 r
     then { t_next = t.t_next; t_cur = (Some (set_excuse r)); t_done =
            t.t_done }
     else t
@@ -1215,9 +1221,9 @@ let j_start cap1 progs s i =
        in
        let t' = { t_next = (S t.t_next); t_cur = (Some r); t_done = t.t_done }
        in
-       let ths0 = updn s.j_ths i t' in
-       let ths1 = if others then map excuse_all ths0 else ths0 in
-       { j_q = s.j_q; j_ths = (map (look cap1 s.j_q) ths1); j_ok = s.j_ok }
+       let ths1 = updn s.j_ths i t' in
+       let ths2 = if others then map excuse_all ths1 else ths1 in
+       { j_q = s.j_q; j_ths = (map (look cap1 s.j_q) ths2); j_ok = s.j_ok }
      | None -> { j_q = s.j_q; j_ths = (updn s.j_ths i t); j_ok = false })
   | None -> { j_q = s.j_q; j_ths = s.j_ths; j_ok = false }
 
@@ -1255,13 +1261,13 @@ let j_lp cap1 s i push =
 
 (** val check_results : oprec list -> z list -> bool **)
 
-let rec check_results recs res0 =
+let rec check_results recs res1 =
   match recs with
-  | [] -> (match res0 with
+  | [] -> (match res1 with
            | [] -> true
            | _ :: _ -> false)
   | r :: recs' ->
-    (match res0 with
+    (match res1 with
      | [] -> false
      | z0 :: l ->
        (match z0 with
@@ -1465,6 +1471,20 @@ let enc_slot x =
    | Some v -> v
    | None -> Z0) :: ((snd x) :: [])
 
+(** val completion : nat -> z list list -> z list **)
+
+let completion n0 progs =
+  let total = fold_left (fun a p -> add a (length p)) progs O in
+  concat
+    (repeat (map Z.of_nat (seq O n0))
+      (add
+        (mul (S (S (S (S (S (S (S (S (S (S (S (S (S (S (S (S (S (S (S (S (S
+          (S (S (S (S (S (S (S (S (S (S (S (S (S (S (S (S (S (S (S
+          O)))))))))))))))))))))))))))))))))))))))) total) (S (S (S (S (S (S
+        (S (S (S (S (S (S (S (S (S (S (S (S (S (S (S (S (S (S (S (S (S (S (S
+        (S (S (S (S (S (S (S (S (S (S (S
+        O))))))))))))))))))))))))))))))))))))))))))
+
 (** val run_case : z list -> z list **)
 
 let run_case = function
@@ -1492,7 +1512,7 @@ let run_case = function
                       (Z.pow (Zpos (XO XH)) (Zpos (XO (XO (XO (XO (XO
                         XH)))))))) bl) fill n0
               in
-              (match go c0 progs sched [] with
+              (match go c0 progs (app sched (completion n0 progs)) [] with
                | Some p ->
                  let (c, acc) = p in
                  app (rev' acc)
@@ -1566,21 +1586,21 @@ let rec judge_steps fuel cap1 progs s l =
                                        | [] ->
                                          ({ j_q = s.j_q; j_ths = s.j_ths;
                                            j_ok = false }, [])
-                                       | res0 :: r'0 ->
+                                       | res1 :: r'0 ->
                                          let s1 = { j_q = s.j_q; j_ths =
                                            (map (look cap1 s.j_q) s.j_ths);
                                            j_ok = s.j_ok }
                                          in
                                          if (&&)
                                               ((&&) (Z.eqb ek evCasU32)
-                                                (Z.eqb res0 (Zpos XH)))
+                                                (Z.eqb res1 (Zpos XH)))
                                               (Z.eqb loc locTail)
                                          then judge_steps f cap1 progs
                                                 (j_lp cap1 s1 (Z.to_nat x)
                                                   true) r'0
                                          else if (&&)
                                                    ((&&) (Z.eqb ek evCasU32)
-                                                     (Z.eqb res0 (Zpos XH)))
+                                                     (Z.eqb res1 (Zpos XH)))
                                                    (Z.eqb loc locHead)
                                               then judge_steps f cap1 progs
                                                      (j_lp cap1 s1
@@ -1592,12 +1612,12 @@ let rec judge_steps fuel cap1 progs s l =
 
 (** val check_threads : tstate list -> z list -> bool * z list **)
 
-let rec check_threads ths0 l =
-  match ths0 with
+let rec check_threads ths1 l =
+  match ths1 with
   | [] -> (true, l)
   | t :: rest ->
-    let (res0, l') = get_list l in
-    let ok = check_results (rev (finish t).t_done) res0 in
+    let (res1, l') = get_list l in
+    let ok = check_results (rev (finish t).t_done) res1 in
     let (ok', l'') = check_threads rest l' in (((&&) ok ok'), l'')
 
 (** val slot_vals : z list -> z list **)
@@ -1610,7 +1630,7 @@ let rec slot_vals = function
 
 (** val check_final : z -> z list -> z list -> bool **)
 
-let check_final cap1 q0 = function
+let check_final cap1 q1 = function
 | [] -> false
 | m :: l0 ->
   (match l0 with
@@ -1622,11 +1642,11 @@ let check_final cap1 q0 = function
         let vs = slot_vals slots0 in
         (&&)
           ((&&) (Z.eqb m (Zneg (XO XH)))
-            (Z.eqb (u32 (Z.sub t h)) (Z.of_nat (length q0))))
+            (Z.eqb (u32 (Z.sub t h)) (Z.of_nat (length q1))))
           (list_eqb
             (map (fun j ->
               nth (Z.to_nat (Z.modulo (Z.add h (Z.of_nat j)) cap1)) vs (Zneg
-                XH)) (seq O (length q0))) q0)))
+                XH)) (seq O (length q1))) q1)))
 
 (** val judge : z list -> z list **)
 
@@ -1651,9 +1671,9 @@ let judge args =
                  let n0 = Z.to_nat nt in
                  let (progs, _) = get_lists n0 r in
                  let cap1 = Z.pow (Zpos (XO XH)) k in
-                 let q0 = map fill_val (map Z.of_nat (seq O (Z.to_nat fill)))
+                 let q1 = map fill_val (map Z.of_nat (seq O (Z.to_nat fill)))
                  in
-                 let s0 = { j_q = q0; j_ths =
+                 let s0 = { j_q = q1; j_ths =
                    (repeat { t_next = O; t_cur = None; t_done = [] } n0);
                    j_ok = true }
                  in
@@ -1668,7 +1688,49 @@ let judge args =
 let entry sub0 args =
   if Z.eqb sub0 (Zpos (XO XH)) then judge args else entry0 sub0 args
 
-(** val upd0 : n list -> nat -> n -> n list **)
+type lin_ev0 =
+| LPush0 of z
+| LPop0 of z
+| LEmpty
+
+type shared0 = { vals : z option list; head : nat; tail : nat; len : 
+                 z; q0 : z list; lin0 : lin_ev0 list }
+
+type pc0 =
+| Idle0
+| PushLoadTail of z
+| PushLoadNext of z * nat
+| PushCas of z * nat * nat option
+| PushAdd of nat * z
+| PushStoreTail of nat * z
+| PushYield of z
+| PopLoadHead
+| PopLoadTail of nat
+| PopLoadNext of nat
+| PopCas of nat * nat option
+| PopRead of nat * z
+| PopClear of nat * z * z option
+| PopDec of nat * z * z option
+| LenLoad
+
+type op0 =
+| OpPush0 of z
+| OpPop0
+| OpLen
+
+type res0 =
+| RPush0
+| RPop0 of z option * z
+| RPopEmpty
+| RPopBusy
+| RLen of z * z
+
+(** val next_of : shared0 -> nat -> nat option **)
+
+let next_of s i =
+  if Nat.ltb (S i) (length s.vals) then Some (S i) else None
+
+(** val upd0 : 'a1 list -> nat -> 'a1 -> 'a1 list **)
 
 let rec upd0 l i x =
   match l with
@@ -1676,6 +1738,602 @@ let rec upd0 l i x =
   | h :: t -> (match i with
                | O -> x :: t
                | S j -> h :: (upd0 t j x))
+
+(** val tstep0 : shared0 -> pc0 -> op0 -> (shared0 * pc0) * res0 option **)
+
+let tstep0 s p o =
+  match p with
+  | Idle0 ->
+    (match o with
+     | OpPush0 v -> ((s, (PushLoadTail v)), None)
+     | OpPop0 -> ((s, PopLoadHead), None)
+     | OpLen -> ((s, LenLoad), None))
+  | PushLoadTail v -> ((s, (PushLoadNext (v, s.tail))), None)
+  | PushLoadNext (v, t) -> ((s, (PushCas (v, t, (next_of s t)))), None)
+  | PushCas (v, t, nx) ->
+    (match nx with
+     | Some _ -> ((s, (PushYield v)), None)
+     | None ->
+       (match next_of s t with
+        | Some _ -> ((s, (PushYield v)), None)
+        | None ->
+          (({ vals = (app s.vals ((Some v) :: [])); head = s.head; tail =
+            s.tail; len = s.len; q0 = s.q0; lin0 = s.lin0 }, (PushAdd
+            ((length s.vals), v))), None)))
+  | PushAdd (n0, v) ->
+    (({ vals = s.vals; head = s.head; tail = s.tail; len =
+      (Z.add s.len (Zpos XH)); q0 = s.q0; lin0 = s.lin0 }, (PushStoreTail
+      (n0, v))), None)
+  | PushStoreTail (n0, v) ->
+    (({ vals = s.vals; head = s.head; tail = n0; len = s.len; q0 =
+      (app s.q0 (v :: [])); lin0 = (app s.lin0 ((LPush0 v) :: [])) }, Idle0),
+      (Some RPush0))
+  | PushYield v -> ((s, (PushLoadTail v)), None)
+  | PopLoadHead -> ((s, (PopLoadTail s.head)), None)
+  | PopLoadTail h ->
+    if Nat.eqb h s.tail
+    then (({ vals = s.vals; head = s.head; tail = s.tail; len = s.len; q0 =
+           s.q0; lin0 = (app s.lin0 (LEmpty :: [])) }, Idle0), (Some
+           RPopEmpty))
+    else ((s, (PopLoadNext h)), None)
+  | PopLoadNext h -> ((s, (PopCas (h, (next_of s h)))), None)
+  | PopCas (h, nx) ->
+    if Nat.eqb s.head h
+    then (match nx with
+          | Some n0 ->
+            (({ vals = s.vals; head = n0; tail = s.tail; len = s.len; q0 =
+              (tl s.q0); lin0 =
+              (app s.lin0 ((LPop0 (nth O s.q0 Z0)) :: [])) }, (PopRead (n0,
+              (nth O s.q0 Z0)))), None)
+          | None -> ((s, Idle0), None))
+    else ((s, Idle0), (Some RPopBusy))
+  | PopRead (n0, gv) -> ((s, (PopClear (n0, gv, (nth n0 s.vals None)))), None)
+  | PopClear (n0, gv, val0) ->
+    (({ vals = (upd0 s.vals n0 None); head = s.head; tail = s.tail; len =
+      s.len; q0 = s.q0; lin0 = s.lin0 }, (PopDec (n0, gv, val0))), None)
+  | PopDec (_, gv, val0) ->
+    (({ vals = s.vals; head = s.head; tail = s.tail; len =
+      (Z.sub s.len (Zpos XH)); q0 = s.q0; lin0 = s.lin0 }, Idle0), (Some
+      (RPop0 (val0, gv))))
+  | LenLoad -> ((s, Idle0), (Some (RLen (s.len, (Z.of_nat (length s.q0))))))
+
+type config0 = { sh0 : shared0; ths0 : pc0 list; hist0 : (nat * res0) list }
+
+(** val step0 : config0 -> (nat * op0) -> config0 **)
+
+let step0 c = function
+| (i, o) ->
+  (match nth_error c.ths0 i with
+   | Some p ->
+     let (p0, r) = tstep0 c.sh0 p o in
+     let (s', p') = p0 in
+     { sh0 = s'; ths0 = (upd0 c.ths0 i p'); hist0 =
+     (match r with
+      | Some x -> app c.hist0 ((i, x) :: [])
+      | None -> c.hist0) }
+   | None -> c)
+
+(** val evLoadI64 : z **)
+
+let evLoadI64 =
+  Zpos (XI (XO XH))
+
+(** val evAddI64 : z **)
+
+let evAddI64 =
+  Zpos (XO (XI XH))
+
+(** val evLoadPtr : z **)
+
+let evLoadPtr =
+  Zpos (XI (XI XH))
+
+(** val evStorePtr : z **)
+
+let evStorePtr =
+  Zpos (XO (XO (XO XH)))
+
+(** val evCasPtr : z **)
+
+let evCasPtr =
+  Zpos (XI (XO (XO XH)))
+
+(** val evGosched : z **)
+
+let evGosched =
+  Zpos (XO (XI (XO XH)))
+
+(** val locLen : z **)
+
+let locLen =
+  Z0
+
+(** val locHead0 : z **)
+
+let locHead0 =
+  Zpos XH
+
+(** val locTail0 : z **)
+
+let locTail0 =
+  Zpos (XO XH)
+
+(** val loc_next : nat -> z **)
+
+let loc_next n0 =
+  Z.add (Zpos (XO (XI (XO XH)))) (Z.of_nat n0)
+
+(** val ptr : nat option -> z **)
+
+let ptr = function
+| Some n0 -> Z.of_nat n0
+| None -> Zneg XH
+
+(** val observe0 : shared0 -> pc0 -> z list **)
+
+let observe0 s = function
+| Idle0 -> Z0 :: []
+| PushLoadTail _ ->
+  (Zpos
+    XH) :: (evLoadPtr :: (locTail0 :: (Z0 :: (Z0 :: ((Z.of_nat s.tail) :: [])))))
+| PushLoadNext (_, t) ->
+  (Zpos
+    XH) :: (evLoadPtr :: ((loc_next t) :: (Z0 :: (Z0 :: ((ptr (next_of s t)) :: [])))))
+| PushCas (_, t, nx) ->
+  (match nx with
+   | Some _ -> Z0 :: []
+   | None ->
+     (Zpos XH) :: (evCasPtr :: ((loc_next t) :: ((Zneg XH) :: ((Zneg (XI (XI
+       XH))) :: ((zb (match next_of s t with
+                      | Some _ -> false
+                      | None -> true)) :: []))))))
+| PushAdd (_, _) ->
+  (Zpos XH) :: (evAddI64 :: (locLen :: ((Zpos
+    XH) :: (Z0 :: ((Z.add s.len (Zpos XH)) :: [])))))
+| PushStoreTail (n0, _) ->
+  (Zpos
+    XH) :: (evStorePtr :: (locTail0 :: ((Z.of_nat n0) :: (Z0 :: (Z0 :: [])))))
+| PushYield _ ->
+  (Zpos XH) :: (evGosched :: (Z0 :: (Z0 :: (Z0 :: (Z0 :: [])))))
+| PopLoadHead ->
+  (Zpos
+    XH) :: (evLoadPtr :: (locHead0 :: (Z0 :: (Z0 :: ((Z.of_nat s.head) :: [])))))
+| PopLoadTail _ ->
+  (Zpos
+    XH) :: (evLoadPtr :: (locTail0 :: (Z0 :: (Z0 :: ((Z.of_nat s.tail) :: [])))))
+| PopLoadNext h ->
+  (Zpos
+    XH) :: (evLoadPtr :: ((loc_next h) :: (Z0 :: (Z0 :: ((ptr (next_of s h)) :: [])))))
+| PopCas (h, nx) ->
+  (Zpos
+    XH) :: (evCasPtr :: (locHead0 :: ((Z.of_nat h) :: ((ptr nx) :: ((zb
+                                                                    (Nat.eqb
+                                                                    s.head h)) :: [])))))
+| PopDec (_, _, _) ->
+  (Zpos XH) :: (evAddI64 :: (locLen :: ((Zneg
+    XH) :: (Z0 :: ((Z.sub s.len (Zpos XH)) :: [])))))
+| LenLoad ->
+  (Zpos XH) :: (evLoadI64 :: (locLen :: (Z0 :: (Z0 :: (s.len :: [])))))
+| _ -> (Zpos (XO XH)) :: []
+
+(** val dec_op0 : z -> op0 **)
+
+let dec_op0 z0 =
+  if Z.eqb z0 Z0 then OpPop0 else if Z.ltb z0 Z0 then OpLen else OpPush0 z0
+
+(** val updl0 : 'a1 list -> nat -> 'a1 -> 'a1 list **)
+
+let rec updl0 l i x =
+  match l with
+  | [] -> []
+  | h :: t -> (match i with
+               | O -> x :: t
+               | S j -> h :: (updl0 t j x))
+
+(** val go0 :
+    config0 -> z list list -> z list -> z list -> config0 * z list **)
+
+let rec go0 c progs sched acc =
+  match sched with
+  | [] -> (c, acc)
+  | t :: rest ->
+    let i = Z.to_nat t in
+    (match nth_error c.ths0 i with
+     | Some p ->
+       let prog = nth i progs [] in
+       (match p with
+        | Idle0 ->
+          (match prog with
+           | [] -> go0 c progs rest acc
+           | _ :: _ ->
+             let o = match prog with
+                     | [] -> OpPop0
+                     | x :: _ -> dec_op0 x in
+             let progs' =
+               match p with
+               | Idle0 -> updl0 progs i (tl prog)
+               | _ -> progs
+             in
+             go0 (step0 c (i, o)) progs' rest
+               (rev_append (t :: (observe0 c.sh0 p)) acc))
+        | _ ->
+          let o = match prog with
+                  | [] -> OpPop0
+                  | x :: _ -> dec_op0 x in
+          let progs' =
+            match p with
+            | Idle0 -> updl0 progs i (tl prog)
+            | _ -> progs
+          in
+          go0 (step0 c (i, o)) progs' rest
+            (rev_append (t :: (observe0 c.sh0 p)) acc))
+     | None -> go0 c progs rest acc)
+
+(** val pre_val : nat -> z **)
+
+let pre_val j =
+  Z.add (Zpos (XI (XO (XO (XI (XO (XI (XO (XO (XI (XI (XO (XO (XO
+    XH)))))))))))))) (Z.of_nat j)
+
+(** val seq_state0 : nat -> nat -> config0 **)
+
+let seq_state0 npre n0 =
+  let vs = map pre_val (seq O npre) in
+  { sh0 = { vals = (None :: (map (fun x -> Some x) vs)); head = O; tail =
+  npre; len = (Z.of_nat npre); q0 = vs; lin0 =
+  (map (fun x -> LPush0 x) vs) }; ths0 = (repeat Idle0 n0); hist0 = [] }
+
+(** val enc_res0 : res0 -> z list **)
+
+let enc_res0 = function
+| RPush0 -> (Zpos XH) :: []
+| RPop0 (o, _) ->
+  (match o with
+   | Some v -> (Zpos (XO XH)) :: ((Zpos XH) :: (v :: []))
+   | None -> (Zpos (XO XH)) :: ((Zpos XH) :: (Z0 :: [])))
+| RLen (z0, _) -> (Zpos (XI XH)) :: (z0 :: [])
+| _ -> (Zpos (XO XH)) :: (Z0 :: (Z0 :: []))
+
+(** val results_of0 : (nat * res0) list -> nat -> z list **)
+
+let results_of0 h i =
+  flat_map (fun e -> if Nat.eqb (fst e) i then enc_res0 (snd e) else []) h
+
+(** val stored : shared0 -> z list **)
+
+let stored s =
+  map (fun o -> match o with
+                | Some v -> v
+                | None -> Z0)
+    (firstn (sub s.tail s.head) (skipn (S s.head) s.vals))
+
+(** val completion0 : nat -> z list list -> z list **)
+
+let completion0 n0 progs =
+  let total = fold_left (fun a p -> add a (length p)) progs O in
+  concat
+    (repeat (map Z.of_nat (seq O n0))
+      (add
+        (mul (S (S (S (S (S (S (S (S (S (S (S (S (S (S (S (S (S (S (S (S (S
+          (S (S (S (S (S (S (S (S (S (S (S (S (S (S (S (S (S (S (S
+          O)))))))))))))))))))))))))))))))))))))))) total) (S (S (S (S (S (S
+        (S (S (S (S (S (S (S (S (S (S (S (S (S (S (S (S (S (S (S (S (S (S (S
+        (S (S (S (S (S (S (S (S (S (S (S
+        O))))))))))))))))))))))))))))))))))))))))))
+
+(** val run_case0 : z list -> z list **)
+
+let run_case0 = function
+| [] -> bADCASE :: []
+| npre :: l ->
+  (match l with
+   | [] -> bADCASE :: []
+   | nt :: r ->
+     let n0 = Z.to_nat nt in
+     let (progs, r1) = get_lists n0 r in
+     let (sched, _) = get_list r1 in
+     let (c, acc) =
+       go0 (seq_state0 (Z.to_nat npre) n0) progs
+         (app sched (completion0 n0 progs)) []
+     in
+     app (rev' acc)
+       (app ((Zneg XH) :: [])
+         (app
+           (flat_map (fun i -> put_list (results_of0 c.hist0 i)) (seq O n0))
+           (app ((Zneg (XO XH)) :: (c.sh0.len :: []))
+             (put_list (stored c.sh0))))))
+
+type oprec0 = { o_kind : z; o_val0 : z; o_lp0 : bool; o_got0 : z;
+                o_excuse0 : bool; o_lenmin : z }
+
+type tstate0 = { t_next0 : nat; t_cur0 : oprec0 option;
+                 t_done0 : oprec0 list; t_lasthead : z }
+
+type jstate0 = { j_q0 : z list; j_ths0 : tstate0 list; j_ok0 : bool }
+
+(** val bad : jstate0 -> jstate0 **)
+
+let bad s =
+  { j_q0 = s.j_q0; j_ths0 = s.j_ths0; j_ok0 = false }
+
+(** val in_flight0 : tstate0 -> bool **)
+
+let in_flight0 t =
+  match t.t_cur0 with
+  | Some _ -> true
+  | None -> false
+
+(** val with_cur : tstate0 -> oprec0 option -> tstate0 **)
+
+let with_cur t r =
+  { t_next0 = t.t_next0; t_cur0 = r; t_done0 = t.t_done0; t_lasthead =
+    t.t_lasthead }
+
+(** val excuse : oprec0 -> oprec0 **)
+
+let excuse r =
+  { o_kind = r.o_kind; o_val0 = r.o_val0; o_lp0 = r.o_lp0; o_got0 = r.o_got0;
+    o_excuse0 = true; o_lenmin = r.o_lenmin }
+
+(** val excuse_all0 : tstate0 -> tstate0 **)
+
+let excuse_all0 t =
+  match t.t_cur0 with
+  | Some r -> with_cur t (Some (excuse r))
+  | None -> t
+
+(** val look0 : z list -> tstate0 -> tstate0 **)
+
+let look0 q1 t =
+  match t.t_cur0 with
+  | Some r ->
+    (match q1 with
+     | [] ->
+       if Z.eqb r.o_kind (Zpos (XO XH))
+       then with_cur t (Some (excuse r))
+       else t
+     | _ :: _ -> t)
+  | None -> t
+
+(** val finish0 : tstate0 -> tstate0 **)
+
+let finish0 t =
+  match t.t_cur0 with
+  | Some r ->
+    { t_next0 = t.t_next0; t_cur0 = None; t_done0 = (r :: t.t_done0);
+      t_lasthead = t.t_lasthead }
+  | None -> t
+
+(** val j_start0 : z list list -> jstate0 -> nat -> jstate0 **)
+
+let j_start0 progs s i =
+  match nth_error s.j_ths0 i with
+  | Some t0 ->
+    let t = finish0 t0 in
+    (match nth_error (nth i progs []) t.t_next0 with
+     | Some o ->
+       let others = existsb in_flight0 (updl0 s.j_ths0 i t) in
+       let r = { o_kind =
+         (if Z.eqb o Z0
+          then Zpos (XO XH)
+          else if Z.ltb o Z0 then Zpos (XI XH) else Zpos XH); o_val0 = o;
+         o_lp0 = false; o_got0 = Z0; o_excuse0 = others; o_lenmin = Z0 }
+       in
+       let t' = { t_next0 = (S t.t_next0); t_cur0 = (Some r); t_done0 =
+         t.t_done0; t_lasthead = (Zneg XH) }
+       in
+       let ths1 = updl0 s.j_ths0 i t' in
+       let ths2 = if others then map excuse_all0 ths1 else ths1 in
+       { j_q0 = s.j_q0; j_ths0 = (map (look0 s.j_q0) ths2); j_ok0 = s.j_ok0 }
+     | None -> bad s)
+  | None -> bad s
+
+(** val set_rec :
+    jstate0 -> nat -> tstate0 -> oprec0 -> z list -> bool -> jstate0 **)
+
+let set_rec s i t r q' ok =
+  { j_q0 = q'; j_ths0 =
+    (map (look0 q') (updl0 s.j_ths0 i (with_cur t (Some r)))); j_ok0 =
+    ((&&) s.j_ok0 ok) }
+
+(** val j_event : jstate0 -> nat -> z -> z -> z -> z -> z -> jstate0 **)
+
+let j_event s i ek loc _ _ res1 =
+  match nth_error s.j_ths0 i with
+  | Some t ->
+    (match t.t_cur0 with
+     | Some r ->
+       if (&&) (Z.eqb ek evStorePtr) (Z.eqb loc locTail0)
+       then set_rec s i t { o_kind = r.o_kind; o_val0 = r.o_val0; o_lp0 =
+              true; o_got0 = Z0; o_excuse0 = r.o_excuse0; o_lenmin = Z0 }
+              (app s.j_q0 (r.o_val0 :: []))
+              ((&&) (Z.eqb r.o_kind (Zpos XH)) (negb r.o_lp0))
+       else if (&&) ((&&) (Z.eqb ek evCasPtr) (Z.eqb loc locHead0))
+                 (Z.eqb res1 (Zpos XH))
+            then (match s.j_q0 with
+                  | [] -> bad s
+                  | x :: q' ->
+                    set_rec s i t { o_kind = r.o_kind; o_val0 = Z0; o_lp0 =
+                      true; o_got0 = x; o_excuse0 = r.o_excuse0; o_lenmin =
+                      Z0 } q'
+                      ((&&) (Z.eqb r.o_kind (Zpos (XO XH))) (negb r.o_lp0)))
+            else if (&&) (Z.eqb ek evLoadI64) (Z.eqb loc locLen)
+                 then set_rec s i t { o_kind = r.o_kind; o_val0 = r.o_val0;
+                        o_lp0 = true; o_got0 = res1; o_excuse0 = r.o_excuse0;
+                        o_lenmin = (Z.of_nat (length s.j_q0)) } s.j_q0
+                        (Z.eqb r.o_kind (Zpos (XI XH)))
+                 else { j_q0 = s.j_q0; j_ths0 =
+                        (map (look0 s.j_q0) s.j_ths0); j_ok0 = s.j_ok0 }
+     | None -> bad s)
+  | None -> bad s
+
+(** val judge_steps0 :
+    nat -> z list list -> jstate0 -> z list -> jstate0 * z list **)
+
+let rec judge_steps0 fuel progs s l =
+  match fuel with
+  | O -> ((bad s), l)
+  | S f ->
+    (match l with
+     | [] -> ((bad s), [])
+     | x :: r ->
+       if Z.eqb x (Zneg XH)
+       then (s, r)
+       else (match r with
+             | [] -> ((bad s), [])
+             | z0 :: r' ->
+               (match z0 with
+                | Z0 ->
+                  let i = Z.to_nat x in
+                  let starts =
+                    match nth_error s.j_ths0 i with
+                    | Some t ->
+                      (match t.t_cur0 with
+                       | Some rc ->
+                         negb
+                           ((&&) (Z.eqb rc.o_kind (Zpos XH)) (negb rc.o_lp0))
+                       | None -> true)
+                    | None -> true
+                  in
+                  judge_steps0 f progs
+                    (if starts then j_start0 progs s i else s) r'
+                | Zpos p ->
+                  (match p with
+                   | XI _ -> ((bad s), [])
+                   | XO p0 ->
+                     (match p0 with
+                      | XH -> judge_steps0 f progs s r'
+                      | _ -> ((bad s), []))
+                   | XH ->
+                     (match r' with
+                      | [] -> ((bad s), [])
+                      | ek :: l0 ->
+                        (match l0 with
+                         | [] -> ((bad s), [])
+                         | loc :: l1 ->
+                           (match l1 with
+                            | [] -> ((bad s), [])
+                            | a :: l2 ->
+                              (match l2 with
+                               | [] -> ((bad s), [])
+                               | b :: l3 ->
+                                 (match l3 with
+                                  | [] -> ((bad s), [])
+                                  | res1 :: r'0 ->
+                                    judge_steps0 f progs
+                                      (j_event s (Z.to_nat x) ek loc a b res1)
+                                      r'0))))))
+                | Zneg _ -> ((bad s), []))))
+
+(** val check_results0 : oprec0 list -> z list -> bool **)
+
+let rec check_results0 recs res1 =
+  match recs with
+  | [] -> (match res1 with
+           | [] -> true
+           | _ :: _ -> false)
+  | r :: recs' ->
+    (match res1 with
+     | [] -> false
+     | z0 :: res' ->
+       (match z0 with
+        | Zpos p ->
+          (match p with
+           | XI p0 ->
+             (match p0 with
+              | XH ->
+                (match res' with
+                 | [] -> false
+                 | z1 :: res'0 ->
+                   (&&)
+                     ((&&)
+                       ((&&)
+                         ((&&) (Z.eqb r.o_kind (Zpos (XI XH)))
+                           (Z.eqb z1 r.o_got0)) (Z.leb Z0 z1))
+                       (Z.leb r.o_lenmin z1)) (check_results0 recs' res'0))
+              | _ -> false)
+           | XO p0 ->
+             (match p0 with
+              | XH ->
+                (match res' with
+                 | [] -> false
+                 | ok :: l ->
+                   (match l with
+                    | [] -> false
+                    | v :: res'0 ->
+                      (&&)
+                        ((&&)
+                          ((&&) (Z.eqb r.o_kind (Zpos (XO XH)))
+                            (eqb (negb (Z.eqb ok Z0)) r.o_lp0))
+                          (if r.o_lp0
+                           then Z.eqb v r.o_got0
+                           else (&&) (Z.eqb v Z0) r.o_excuse0))
+                        (check_results0 recs' res'0)))
+              | _ -> false)
+           | XH ->
+             (&&) ((&&) (Z.eqb r.o_kind (Zpos XH)) r.o_lp0)
+               (check_results0 recs' res'))
+        | _ -> false))
+
+(** val check_threads0 : tstate0 list -> z list -> bool * z list **)
+
+let rec check_threads0 ths1 l =
+  match ths1 with
+  | [] -> (true, l)
+  | t :: rest ->
+    let (res1, l') = get_list l in
+    let ok = check_results0 (rev (finish0 t).t_done0) res1 in
+    let (ok', l'') = check_threads0 rest l' in (((&&) ok ok'), l'')
+
+(** val judge0 : z list -> z list **)
+
+let judge0 args =
+  let (cs, r0) = get_list args in
+  let (out, _) = get_list r0 in
+  (match cs with
+   | [] -> Z0 :: []
+   | npre :: l ->
+     (match l with
+      | [] -> Z0 :: []
+      | nt :: r ->
+        let n0 = Z.to_nat nt in
+        let (progs, _) = get_lists n0 r in
+        let q1 = map pre_val (seq O (Z.to_nat npre)) in
+        let s0 = { j_q0 = q1; j_ths0 =
+          (repeat { t_next0 = O; t_cur0 = None; t_done0 = []; t_lasthead =
+            (Zneg XH) } n0); j_ok0 = true }
+        in
+        let (s, rest) = judge_steps0 (add (length out) (S O)) progs s0 out in
+        let (okr, rest') = check_threads0 s.j_ths0 rest in
+        let fin =
+          match rest' with
+          | [] -> false
+          | m :: l0 ->
+            (match l0 with
+             | [] -> false
+             | ln :: st ->
+               (&&)
+                 ((&&) (Z.eqb m (Zneg (XO XH)))
+                   (Z.eqb ln (Z.of_nat (length s.j_q0))))
+                 (list_eqb (fst (get_list st)) s.j_q0))
+        in
+        (zb ((&&) ((&&) s.j_ok0 okr) fin)) :: []))
+
+(** val entry1 : z -> z list -> z list **)
+
+let entry1 sub0 args =
+  if Z.eqb sub0 Z0
+  then run_case0 args
+  else if Z.eqb sub0 (Zpos (XO XH)) then judge0 args else bADCASE :: []
+
+(** val upd1 : n list -> nat -> n -> n list **)
+
+let rec upd1 l i x =
+  match l with
+  | [] -> []
+  | h :: t -> (match i with
+               | O -> x :: t
+               | S j -> h :: (upd1 t j x))
 
 (** val widx : n -> nat **)
 
@@ -1704,9 +2362,9 @@ let add0 set num =
   let i = widx num in
   if Nat.leb (length set) i
   then let grown = app set (repeat N0 (sub (add i (S O)) (length set))) in
-       ((upd0 grown i (N.coq_lor (nth i grown N0) (mask0 (bidx num)))), true)
+       ((upd1 grown i (N.coq_lor (nth i grown N0) (mask0 (bidx num)))), true)
   else if N.eqb (N.coq_land (nth i set N0) (mask0 (bidx num))) N0
-       then ((upd0 set i (N.coq_lor (nth i set N0) (mask0 (bidx num)))), true)
+       then ((upd1 set i (N.coq_lor (nth i set N0) (mask0 (bidx num)))), true)
        else (set, false)
 
 (** val remove : n list -> n -> n list * bool **)
@@ -1715,7 +2373,7 @@ let remove set num =
   let i = widx num in
   if (&&) (Nat.ltb i (length set))
        (negb (N.eqb (N.coq_land (nth i set N0) (mask0 (bidx num))) N0))
-  then ((upd0 set i (N.ldiff (nth i set N0) (mask0 (bidx num)))), true)
+  then ((upd1 set i (N.ldiff (nth i set N0) (mask0 (bidx num)))), true)
   else (set, false)
 
 type iter0 = { wi : nat; bj : n; rd : bool }
@@ -1813,11 +2471,11 @@ let bits64 =
 let popcount w =
   length (filter (N.testbit w) bits64)
 
-(** val len : n list -> nat **)
+(** val len0 : n list -> nat **)
 
-let rec len = function
+let rec len0 = function
 | [] -> O
-| w :: t -> add (popcount w) (len t)
+| w :: t -> add (popcount w) (len0 t)
 
 (** val mlist : n -> n list -> n list **)
 
@@ -1860,7 +2518,7 @@ let b_remove b n0 =
 (** val recount : n list -> bits **)
 
 let recount w =
-  { words = w; cached = (Z.of_nat (len w)) }
+  { words = w; cached = (Z.of_nat (len0 w)) }
 
 (** val enumerate : n list -> n list **)
 
@@ -1884,7 +2542,7 @@ type kind =
 | KBitmap
 | KDsz
 
-type op0 =
+type op1 =
 | OAdd of bool * n
 | ORemove of bool * n
 | OContains of bool * n
@@ -1913,12 +2571,12 @@ let upd2 t p x =
 
 let len_of k b =
   match k with
-  | KBitmap -> Z.of_nat (len b.words)
+  | KBitmap -> Z.of_nat (len0 b.words)
   | _ -> b.cached
 
-(** val step0 : kind -> (bits * bits) -> op0 -> (bits * bits) * z list **)
+(** val step1 : kind -> (bits * bits) -> op1 -> (bits * bits) * z list **)
 
-let step0 k st = function
+let step1 k st = function
 | OAdd (t, n0) ->
   let (b, ch) = b_add (sel t st) n0 in
   ((upd2 t st b), (match k with
@@ -1947,11 +2605,11 @@ let step0 k st = function
   ((upd2 t st (recount (merge (sel t st).words (sel (negb t) st).words))), [])
 | OClone t -> ((upd2 (negb t) st (sel t st)), [])
 
-(** val run : kind -> (bits * bits) -> op0 list -> z list **)
+(** val run : kind -> (bits * bits) -> op1 list -> z list **)
 
 let rec run k st = function
 | [] -> []
-| o :: r -> let (st', out) = step0 k st o in app out (run k st' r)
+| o :: r -> let (st', out) = step1 k st o in app out (run k st' r)
 
 (** val empty : bits **)
 
@@ -1999,7 +2657,7 @@ let need n0 =
   N.mul (N.add (N.div n0 (Npos (XO (XO (XO (XO (XO (XO XH)))))))) (Npos XH))
     (Npos (XO (XO (XO (XO (XO (XO XH)))))))
 
-(** val s_step : kind -> (sset * sset) -> op0 -> (sset * sset) * z list **)
+(** val s_step : kind -> (sset * sset) -> op1 -> (sset * sset) * z list **)
 
 let s_step k st = function
 | OAdd (t, n0) ->
@@ -2051,7 +2709,7 @@ let s_step k st = function
      (N.max s.scap o'.scap) }), [])
 | OClone t -> ((upd2 (negb t) st (sel t st)), [])
 
-(** val s_run : kind -> (sset * sset) -> op0 list -> z list **)
+(** val s_run : kind -> (sset * sset) -> op1 list -> z list **)
 
 let rec s_run k st = function
 | [] -> []
@@ -2067,9 +2725,9 @@ let s_empty =
 let dec_kind z0 =
   if Z.eqb z0 Z0 then KBits else if Z.eqb z0 (Zpos XH) then KBitmap else KDsz
 
-(** val dec_op0 : z -> z -> z -> op0 option **)
+(** val dec_op1 : z -> z -> z -> op1 option **)
 
-let dec_op0 c t a =
+let dec_op1 c t a =
   let tb = bz t in
   let n0 = Z.to_N a in
   let k = Z.to_nat a in
@@ -2109,7 +2767,7 @@ let dec_op0 c t a =
                                                                     tb)
                                                               else None
 
-(** val dec_ops : nat -> z list -> op0 list option **)
+(** val dec_ops : nat -> z list -> op1 list option **)
 
 let rec dec_ops fuel l =
   match fuel with
@@ -2126,16 +2784,16 @@ let rec dec_ops fuel l =
           (match l1 with
            | [] -> None
            | a :: r ->
-             (match dec_op0 c t a with
+             (match dec_op1 c t a with
               | Some o ->
                 (match dec_ops f r with
                  | Some os -> Some (o :: os)
                  | None -> None)
               | None -> None))))
 
-(** val entry1 : z -> z list -> z list **)
+(** val entry2 : z -> z list -> z list **)
 
-let entry1 sub0 = function
+let entry2 sub0 = function
 | [] -> bADCASE :: []
 | k :: r ->
   (match dec_ops (length r) r with
@@ -2152,4 +2810,8 @@ let entry1 sub0 = function
 let dispatch p sub0 args =
   if Z.eqb p (Zpos XH)
   then entry sub0 args
-  else if Z.eqb p (Zpos (XO (XO (XO (XO XH))))) then entry1 sub0 args else []
+  else if Z.eqb p (Zpos (XI (XI (XO XH))))
+       then entry1 sub0 args
+       else if Z.eqb p (Zpos (XO (XO (XO (XO XH)))))
+            then entry2 sub0 args
+            else []
